@@ -806,6 +806,8 @@ class Facts:
                                 ldefs[("var", d["n"], d["d"])] = _subst_vars(fn.term(d["init"]), ldefs)
                     elif n0["k"] in ("NullStmt",):
                         pass
+                    elif n0["k"] == "IfStmt" and n0.get("else") is None and n0.get("then") is not None and self._throw_only_stmt(fn, n0["then"]):
+                        pass        # a refusal: where the function returns at all, it returns the expression below
                     else:
                         okb = False
                         break
@@ -835,6 +837,18 @@ class Facts:
                         if t not in subs:
                             subs.add(t)
                             changed = True
+
+    @staticmethod
+    def _throw_only_stmt(fn, sid):
+        """Statement sid does nothing but throw (`throw X;` or `{ throw X; }`)."""
+        nd = fn.n(sid)
+        if nd["k"] == "CompoundStmt":
+            ks = fn.kids(sid)
+            return len(ks) == 1 and Facts._throw_only_stmt(fn, ks[0])
+        if nd["k"] in ("ExprWithCleanups",):
+            ks = fn.kids(sid)
+            return len(ks) == 1 and Facts._throw_only_stmt(fn, ks[0])
+        return nd["k"] == "CXXThrowExpr"
 
     def _canonicalise_member_names(self):
         """Reads purely renamed data members under their frozen names (spec/names.json).
